@@ -4,7 +4,7 @@ import abc
 import inspect
 import logging
 import threading
-from dataclasses import dataclass, field
+from dataclasses import dataclass, field, FrozenInstanceError
 from functools import lru_cache
 from typing import _GenericAlias
 
@@ -266,9 +266,20 @@ class FromDAOState:
                 fixed_list = []
                 for v in value:
                     fixed_list.append(self.memo.get(id(v)))
-                setattr(result, key, fixed_list)
+                self._assign(result, key, fixed_list)
             else:
-                setattr(result, key, self.memo.get(id(value)))
+                self._assign(result, key, self.memo.get(id(value)))
+
+    @staticmethod
+    def _assign(result: Any, key: str, value: Any) -> None:
+        """
+        Assign an attribute of a reconstructed object; instances of frozen dataclasses are assigned the way their own
+        ``__init__`` assigns them.
+        """
+        try:
+            setattr(result, key, value)
+        except FrozenInstanceError:
+            object.__setattr__(result, key, value)
 
 
 class HasGeneric(Generic[T]):
